@@ -178,6 +178,15 @@ func C05(r *eng.Run) {
 	marks := MarksOf(s.Frames[:k])
 	marks = append(marks, Mark{bad.Off, 'F'}, Mark{bad.HdrEnd, 'H'}, Mark{bad.End, 'E'})
 
+	if cfg.App == AppReader {
+		cfg.SkipEmpty = r.T.Bool(sim.LCfg)
+		cfg.ProbeAfterError = !fragmented && r.T.Bool(sim.LCfg)
+		if (kind == "oversize" || kind == "oversize_ctrl") && r.T.Chance(sim.LCfg, 1, 3) {
+			// The size limit is independent of the header check.
+			cfg.SkipCheck = true
+			r.Probe("oversize_with_header_check_skipped")
+		}
+	}
 	p := NewPipe(r, wire)
 	p.Marks = marks
 	p.SegMode = DrawSeg(r)
@@ -200,6 +209,9 @@ func C05(r *eng.Run) {
 	if o.Err == nil || !isRejection(o.Err) {
 		r.Failf("not_rejected", "%s: frame %d (%s, breaks %v in state fragmented=%v) did not yield a protocol/size error: got %v from %s",
 			cfg.Name(), k, frameStr(bad), broken, fragmented, o.Err, o.ErrAt)
+	}
+	if len(o.AfterErr) > 0 {
+		r.Failf("delivered_past_violation", "%s: after NextFrame refused frame %d (%s, breaks %v) a further Read handed out %d bytes (%x...)", cfg.Name(), k, frameStr(bad), broken, len(o.AfterErr), head(o.AfterErr, 8))
 	}
 	if o.Open != nil {
 		if len(o.Open.Data) > len(st.openData) || !bytes.Equal(o.Open.Data, st.openData[:len(o.Open.Data)]) {
